@@ -145,7 +145,7 @@ def write_evidence(check, tier, verif_seed, agg, wall, violations, extra):
             "preemption_sites_hit_max_per_run": agg["sites"],
             "faults_fired": agg["faults"],
             "probes": agg["probes"],
-            "probes_stuck_at_zero": sorted(k for k, v in agg["probes"].items() if v == 0),
+            "probes_stuck_at_zero": sorted(k for k, v in agg["probes"].items() if v == 0 and not k.startswith("defect_")),
             "policies": agg["policies"],
             "case_kinds": agg["kinds"],
             "components_real": check.components_real,
@@ -370,7 +370,7 @@ def main(argv=None):
             print("HARNESS-ERROR: determinism self-test failed: %s" % st["detail"])
             rc = 2
     wall_total = time.time() - t_start
-    zero = sorted(k for k, v in agg["probes"].items() if v == 0)
+    zero = sorted(k for k, v in agg["probes"].items() if v == 0 and not k.startswith("defect_"))  # defect_*: must be 0
     if zero:
         print("warning: probes stuck at zero: %s" % ", ".join(zero))
     if not a.no_evidence:
